@@ -8,6 +8,7 @@ namespace Driver
 inductive Arg where
   | w (v : BitVec 64)
   | r (l : List (BitVec 64))
+  | s (str : String)
   deriving Inhabited
 
 def hexDigit (c : Char) : Option Nat :=
@@ -43,7 +44,9 @@ partial def parseArgs (toks : List String) (acc : List Arg) : Option (List Arg) 
     match go rest [] with
     | some (ws, r) => parseArgs r (Arg.r ws :: acc)
     | none => none
-  | t :: rest => match parseHex t with
+  | t :: rest =>
+    if t.startsWith "s:" then parseArgs rest (Arg.s (t.drop 2).toString :: acc)
+    else match parseHex t with
     | some n => parseArgs rest (Arg.w (BitVec.ofNat 64 n) :: acc)
     | none => none
 
